@@ -801,6 +801,20 @@ def _run_probe(name, rng, odl, F):
         ok, err = _fd_ok(f, x, d, gi)
         return ok and abs(dv - gi) <= 1e-10 * (1 + abs(gi)), 'separablesum-gradient', \
             'SeparableSum of two random depth-1 trees: gradient vs directional derivative', {'fd_rel_err': err}
+    if kind == 'quadform-alias':
+        # QuadraticForm(operator=A, vector=b) when A(x) returns x itself (RealPart on a real space)
+        S = make_space(rng, arg)
+        b, xv = vec(rng, S), vec(rng, S)
+        c = dy(rng)
+        f = F.QuadraticForm(operator=odl.RealPart(S.sp), vector=S.elem(b), constant=c)
+        x = S.elem(xv)
+        o = float(f(x))
+        x0 = S.elem(xv)
+        e = float(x0.inner(x0 + S.elem(b)) + c)
+        unchanged = S.flat(x) == S.flat(x0)
+        return (abs(o - e) <= 1e-9 * (1 + abs(e)) and unchanged), 'quadraticform-call-mutates-operator-result', \
+            'QuadraticForm(operator=RealPart(space), vector=b)(x) == <x, x + b> + c and x is left unchanged', \
+            {'observed': o, 'expected': e, 'x_unchanged': unchanged}
     if kind == 'simple':
         S = make_space(rng, arg)
         f = odl.solvers.functional.functional.simple_functional(
@@ -835,6 +849,7 @@ def _probe_names(rng, tier):
     for sk in ('rn', 'rn_cw', 'rn_aw', 'discr', 'pspace', 'pspace_w'):
         for which in ('l1', 'l2sq', 'l2'):
             names.append('moreau:%s/%s' % (sk, which))
+    names += ['quadform-alias:rn', 'quadform-alias:rn_cw', 'quadform-alias:discr']
     names += ['sepsum'] * (3 if quick else 12)
     names += ['simple:%s' % sk for sk in ('rn', 'rn_cw', 'rn_aw', 'discr', 'pspace_w')]
     return names
